@@ -19,6 +19,10 @@ type Edit struct {
 	Data  string `json:"data,omitempty"`
 	To    string `json:"to,omitempty"`
 	Steps int    `json:"steps,omitempty"` // write: visible steps 1..3
+	// WhenRead places the edit inside an operation of the tool: it is held back until the tool has read the named file
+	// to its end (after the previous edit), and is then made at once, before anything else runs. If that never happens
+	// the edit is made once the system has been quiet for half the settle time.
+	WhenRead string `json:"when_read,omitempty"`
 }
 
 type Spec struct {
@@ -88,6 +92,7 @@ type editStep struct {
 	desc  string
 	last  bool // last micro-step of an edit
 	pause bool // the editor waits: only eligible while nothing else can run, and then lets simulated time pass
+	whenRead string // first micro-step of an edit with WhenRead
 }
 
 // editorPutFile writes a file the way a person's tools do: directories on the way that do not exist yet are made one by
@@ -117,6 +122,7 @@ func expandEdits(edits []Edit) []editStep {
 	fs := TheFS
 	for _, e := range edits {
 		e := e
+		firstOfEdit := len(out)
 		switch e.Kind {
 		case "write":
 			steps := e.Steps
@@ -126,26 +132,26 @@ func expandEdits(edits []Edit) []editStep {
 			data := []byte(e.Data)
 			switch steps {
 			case 1:
-				out = append(out, editStep{func() { editorPutFile(fs, e.Path, data); notify(e.Path, EvWrite) }, "write1 " + e.Path, true, false})
+				out = append(out, editStep{func() { editorPutFile(fs, e.Path, data); notify(e.Path, EvWrite) }, "write1 " + e.Path, true, false, ""})
 			case 2:
-				out = append(out, editStep{func() { editorPutFile(fs, e.Path, nil); notify(e.Path, EvWrite) }, "trunc " + e.Path, false, false})
-				out = append(out, editStep{func() { editorPutFile(fs, e.Path, data); notify(e.Path, EvWrite) }, "write " + e.Path, true, false})
+				out = append(out, editStep{func() { editorPutFile(fs, e.Path, nil); notify(e.Path, EvWrite) }, "trunc " + e.Path, false, false, ""})
+				out = append(out, editStep{func() { editorPutFile(fs, e.Path, data); notify(e.Path, EvWrite) }, "write " + e.Path, true, false, ""})
 			default:
 				half := len(data) / 2
-				out = append(out, editStep{func() { editorPutFile(fs, e.Path, nil); notify(e.Path, EvWrite) }, "trunc " + e.Path, false, false})
-				out = append(out, editStep{func() { editorPutFile(fs, e.Path, data[:half]); notify(e.Path, EvWrite) }, "write-half " + e.Path, false, false})
-				out = append(out, editStep{func() { editorPutFile(fs, e.Path, data); notify(e.Path, EvWrite) }, "write-rest " + e.Path, true, false})
+				out = append(out, editStep{func() { editorPutFile(fs, e.Path, nil); notify(e.Path, EvWrite) }, "trunc " + e.Path, false, false, ""})
+				out = append(out, editStep{func() { editorPutFile(fs, e.Path, data[:half]); notify(e.Path, EvWrite) }, "write-half " + e.Path, false, false, ""})
+				out = append(out, editStep{func() { editorPutFile(fs, e.Path, data); notify(e.Path, EvWrite) }, "write-rest " + e.Path, true, false, ""})
 			}
 		case "atomic":
 			tmp := path.Dir(e.Path) + "/." + path.Base(e.Path) + ".swp~"
-			out = append(out, editStep{func() { editorPutFile(fs, tmp, []byte(e.Data)); notify(tmp, EvCreate); notify(tmp, EvWrite) }, "tmpwrite " + tmp, false, false})
-			out = append(out, editStep{func() { RenameRaw(tmp, e.Path) }, "rename->" + e.Path, true, false})
+			out = append(out, editStep{func() { editorPutFile(fs, tmp, []byte(e.Data)); notify(tmp, EvCreate); notify(tmp, EvWrite) }, "tmpwrite " + tmp, false, false, ""})
+			out = append(out, editStep{func() { RenameRaw(tmp, e.Path) }, "rename->" + e.Path, true, false, ""})
 		case "backup":
 			// the way vim saves by default: move the file aside, write a new one under the old name, delete the backup
 			// (for a moment the file does not exist at all)
 			bak := e.Path + "~"
-			out = append(out, editStep{func() { RenameRaw(e.Path, bak) }, "rename-aside " + e.Path, false, false})
-			out = append(out, editStep{func() { editorPutFile(fs, e.Path, []byte(e.Data)); notify(e.Path, EvCreate); notify(e.Path, EvWrite) }, "write-new " + e.Path, false, false})
+			out = append(out, editStep{func() { RenameRaw(e.Path, bak) }, "rename-aside " + e.Path, false, false, ""})
+			out = append(out, editStep{func() { editorPutFile(fs, e.Path, []byte(e.Data)); notify(e.Path, EvCreate); notify(e.Path, EvWrite) }, "write-new " + e.Path, false, false, ""})
 			out = append(out, editStep{func() {
 				if p, n, er := fs.parentOf(bak); er == 0 {
 					if _, ok := p.Children[n]; ok {
@@ -153,7 +159,7 @@ func expandEdits(edits []Edit) []editStep {
 						notify(bak, EvRemove)
 					}
 				}
-			}, "remove-backup " + bak, true, false})
+			}, "remove-backup " + bak, true, false, ""})
 		case "remove":
 			out = append(out, editStep{func() {
 				if p, n, er := fs.parentOf(e.Path); er == 0 {
@@ -163,20 +169,23 @@ func expandEdits(edits []Edit) []editStep {
 						detached(gone, p, EvRemove)
 					}
 				}
-			}, "remove " + e.Path, true, false})
+			}, "remove " + e.Path, true, false, ""})
 		case "rename":
-			out = append(out, editStep{func() { RenameRaw(e.Path, e.To) }, "rename " + e.Path + "->" + e.To, true, false})
+			out = append(out, editStep{func() { RenameRaw(e.Path, e.To) }, "rename " + e.Path + "->" + e.To, true, false, ""})
 		case "mkdir":
-			out = append(out, editStep{func() { fs.MkdirAllRaw(e.Path); notify(e.Path, EvCreate) }, "mkdir " + e.Path, true, false})
+			out = append(out, editStep{func() { fs.MkdirAllRaw(e.Path); notify(e.Path, EvCreate) }, "mkdir " + e.Path, true, false, ""})
 		case "pause":
 			// the person at the editor waits until the tool has gone quiet: three waits of 20 ms, each possible only
 			// when no goroutine is runnable and no event is deliverable (so a regeneration started by a debounce
 			// timer that fires during one wait has to finish before the next)
 			for i := 0; i < 3; i++ {
-				out = append(out, editStep{func() { time.Sleep(20 * time.Millisecond) }, "pause", i == 2, true})
+				out = append(out, editStep{func() { time.Sleep(20 * time.Millisecond) }, "pause", i == 2, true, ""})
 			}
 		default:
 			panic("unknown edit kind " + e.Kind)
+		}
+		if e.WhenRead != "" && firstOfEdit < len(out) {
+			out[firstOfEdit].whenRead = e.WhenRead
 		}
 	}
 	return out
@@ -380,6 +389,7 @@ func Run(spec *Spec, mainFn func()) *Result {
 
 	settleLeft := time.Duration(spec.SettleMs) * time.Millisecond
 	settleChunk := 20 * time.Millisecond
+	editArmedAt := 0
 	probed := false
 	errEvsLeft := spec.ErrEvs
 
@@ -401,6 +411,26 @@ func Run(spec *Spec, mainFn func()) *Result {
 		evEnabled := len(PendingEvs) > 0 && evBlockedAt != lastProgress
 		if edEnabled && steps[nextEdit].pause && (len(gnames) > 0 || evEnabled) {
 			edEnabled = false
+		}
+		edNow := false
+		if edEnabled && steps[nextEdit].whenRead != "" {
+			seen := false
+			for i := editArmedAt; i < len(OpLog); i++ {
+				if OpLog[i].Op == "read" && OpLog[i].Res == "eof" && OpLog[i].Path == steps[nextEdit].whenRead && OpLog[i].G != "editor" {
+					seen = true
+					break
+				}
+			}
+			switch {
+			case seen:
+				edNow = true
+				Probe("edit_placed_right_after_a_read")
+			case settleLeft <= time.Duration(spec.SettleMs)*time.Millisecond/2:
+				steps[nextEdit].whenRead = "" // the read never came: make the edit anyway
+				Probe("edit_waited_for_a_read_in_vain")
+			default:
+				edEnabled = false
+			}
 		}
 		if mainDone && len(gnames) == 0 {
 			mu.Lock()
@@ -432,6 +462,9 @@ func Run(spec *Spec, mainFn func()) *Result {
 			} else {
 				res.Diverged++
 			}
+		}
+		if choice == "" && edNow {
+			choice = "ed"
 		}
 		if choice == "" {
 			anything := len(gnames) > 0 || edEnabled || evEnabled
@@ -558,6 +591,7 @@ func Run(spec *Spec, mainFn func()) *Result {
 		case choice == "ed":
 			st := steps[nextEdit]
 			nextEdit++
+			editArmedAt = len(OpLog)
 			st.do()
 			if st.last {
 				EditsApplied++
